@@ -517,7 +517,18 @@ func (r *Run) Exec() (stuck []string, err error) {
 	r.add(Ev{Kind: "shutdown_call"})
 	serr := proc.Shutdown(context.Background())
 	r.add(Ev{Kind: "shutdown_ret", Err: serr})
-	<-allDone
+	if r.Stress {
+		<-allDone
+	} else {
+		// callers that are still blocked after Shutdown (stranded waiters) are released at the horizon
+		t := time.NewTimer(durMax(horizon-r.vt(), 0) + time.Hour)
+		select {
+		case <-allDone:
+			t.Stop()
+		case <-t.C:
+			release()
+		}
+	}
 	for _, s := range spans {
 		s.End() // caller spans stay open until after Shutdown (link-back needs a live span)
 	}
